@@ -13,6 +13,8 @@ O_SET, O_GET, O_DEL, O_IN, O_GETD, O_POP, O_POPITEM, O_SETDEFAULT, O_UPDATE, O_C
 S_ADD, S_DISCARD, S_REMOVE, S_IN, S_CANON, S_LOWER, S_CLEAR, S_IOR, S_ISUB, S_POP = range(10)
 OPNAMES = ['setitem', 'getitem', 'delitem', 'contains', 'get', 'pop', 'popitem', 'setdefault', 'update', 'clear', 'lower']
 SOPNAMES = ['add', 'discard', 'remove', 'contains', 'get_canonical_key', 'lower', 'clear', 'ior', 'isub', 'pop']
+M_OP, M_LOWER, M_COPY, M_COPYITEMS, M_UPDATEFROM, M_NEW, M_NEWDEFAULT = range(7)
+SM_OP, SM_LOWER, SM_COPY, SM_IORFROM, SM_ISUBFROM, SM_NEW = range(6)
 CLSNAMES = ['CaseInsensitiveDict', 'OrderedCaseInsensitiveDict', 'CaseInsensitiveDefaultDict']
 
 
@@ -72,52 +74,103 @@ def observe_dict(c, probes):
     return [it[1] if it[0] == 0 else [[-1]], items, ln[1] if ln[0] == 0 else -1, rp, cont, look, extra]
 
 
-def impl_dict(arg):
+def _classes():
     from pybtex.utils import CaseInsensitiveDict, OrderedCaseInsensitiveDict, CaseInsensitiveDefaultDict
+    return (CaseInsensitiveDict, OrderedCaseInsensitiveDict, CaseInsensitiveDefaultDict)
+
+
+def apply_op(c, op):
+    """one operation on the real container c; returns (container now in the slot, encoded result)"""
+    t = op[0]
+    k = S(op[1]) if len(op) > 1 and t != O_UPDATE else None
+    if t == O_SET:
+        r = call(c.__setitem__, k, op[2])
+    elif t == O_GET:
+        r = call(c.__getitem__, k)
+    elif t == O_DEL:
+        r = call(c.__delitem__, k)
+    elif t == O_IN:
+        r = call(c.__contains__, k)
+    elif t == O_GETD:
+        r = call(c.get, k, *op[2])
+    elif t == O_POP:
+        r = call(c.pop, k, *op[2])
+    elif t == O_POPITEM:
+        r = call(c.popitem)
+    elif t == O_SETDEFAULT:
+        r = call(c.setdefault, k, op[2])
+    elif t == O_UPDATE:
+        pairs = [(S(a), b) for a, b in op[1]]
+        if len(pairs) % 2 == 0 and len(set(a for a, _ in pairs)) == len(pairs):
+            pairs = dict(pairs)      # update(mapping) iterates the same pairs
+        r = call(c.update, pairs)
+    elif t == O_CLEAR:
+        r = call(c.clear)
+    else:
+        r = call(c.lower)
+        if r[0] == 0:
+            c = r[1]
+            r = [0, None]
+    if r[0] == 0:
+        r = [0, enc_val(r[1])]
+    return c, r
+
+
+def impl_dict(arg):
+    CLS = _classes()
     cls, dflt, init, ops, probes, obs_from = arg
     probes = [S(p) for p in probes]
     try:
         if cls == DEFAULT:
-            c = CaseInsensitiveDefaultDict(lambda: dflt)
+            c = CLS[2](lambda: dflt)
         else:
-            c = (CaseInsensitiveDict, OrderedCaseInsensitiveDict)[cls]([(S(k), v) for k, v in init])
+            c = CLS[cls]([(S(k), v) for k, v in init])
     except Exception:
         return [[[2], []]]
     out = [[[0, [0]], observe_dict(c, probes) if obs_from <= 0 else []]]
     for op in ops:
-        t = op[0]
-        k = S(op[1]) if len(op) > 1 and t != O_UPDATE else None
-        if t == O_SET:
-            r = call(c.__setitem__, k, op[2])
-        elif t == O_GET:
-            r = call(c.__getitem__, k)
-        elif t == O_DEL:
-            r = call(c.__delitem__, k)
-        elif t == O_IN:
-            r = call(c.__contains__, k)
-        elif t == O_GETD:
-            r = call(c.get, k, *op[2])
-        elif t == O_POP:
-            r = call(c.pop, k, *op[2])
-        elif t == O_POPITEM:
-            r = call(c.popitem)
-        elif t == O_SETDEFAULT:
-            r = call(c.setdefault, k, op[2])
-        elif t == O_UPDATE:
-            pairs = [(S(a), b) for a, b in op[1]]
-            if len(pairs) % 2 == 0 and len(set(a for a, _ in pairs)) == len(pairs):
-                pairs = dict(pairs)      # update(mapping) iterates the same pairs
-            r = call(c.update, pairs)
-        elif t == O_CLEAR:
-            r = call(c.clear)
-        else:
-            r = call(c.lower)
-            if r[0] == 0:
-                c = r[1]
-                r = [0, None]
-        if r[0] == 0:
-            r = [0, enc_val(r[1])]
+        c, r = apply_op(c, op)
         out.append([r, observe_dict(c, probes) if obs_from <= len(out) else []])
+    return out
+
+
+def impl_multi(arg):
+    """several live containers; every object ever created stays referenced (so sharing between them stays visible)"""
+    CLS = _classes()
+    ops, probes, obs_from = arg
+    probes = [S(p) for p in probes]
+    cs = []
+    keep = []
+    out = []
+    for op in ops:
+        t = op[0]
+        idx = [op[1]] if t in (M_OP, M_LOWER, M_COPY, M_COPYITEMS) else ([op[1], op[2]] if t == M_UPDATEFROM else [])
+        if any(i >= len(cs) for i in idx):
+            # a container that an earlier, failed step should have created: like the model, Crash and no change
+            out.append([[2], [observe_dict(c, probes) for c in cs] if obs_from <= len(out) else []])
+            continue
+        if t == M_OP:
+            keep.append(cs[op[1]])
+            cs[op[1]], r = apply_op(cs[op[1]], op[2])
+        else:
+            if t == M_LOWER:
+                r = call(cs[op[1]].lower)
+            elif t == M_COPY:
+                r = call(CLS[op[2]], cs[op[1]])
+            elif t == M_COPYITEMS:
+                r = call(lambda: CLS[op[2]](cs[op[1]].items()))
+            elif t == M_UPDATEFROM:
+                r = call(cs[op[1]].update, cs[op[2]])
+            elif t == M_NEW:
+                r = call(CLS[op[1]], [(S(k), v) for k, v in op[2]])
+            else:
+                d0 = op[1]
+                r = call(CLS[2], lambda d0=d0: d0)
+            if r[0] == 0:
+                if t != M_UPDATEFROM:
+                    cs.append(r[1])
+                r = [0, [0]]
+        out.append([r, [observe_dict(c, probes) for c in cs] if obs_from <= len(out) else []])
     return out
 
 
@@ -135,6 +188,40 @@ def observe_set(s, probes):
             rp[1] if rp[0] == 0 else [[-1], rp], cont, can]
 
 
+def apply_sop(s, op):
+    t = op[0]
+    k = S(op[1]) if len(op) > 1 and t not in (S_IOR, S_ISUB) else None
+    if t == S_ADD:
+        r = call(s.add, k)
+    elif t == S_DISCARD:
+        r = call(s.discard, k)
+    elif t == S_REMOVE:
+        r = call(s.remove, k)
+    elif t == S_IN:
+        r = call(s.__contains__, k)
+    elif t == S_CANON:
+        r = call(s.get_canonical_key, k)
+    elif t == S_LOWER:
+        r = call(s.lower)
+        if r[0] == 0:
+            s = r[1]; r = [0, None]
+    elif t == S_CLEAR:
+        r = call(s.clear)
+    elif t == S_IOR:
+        r = call(s.__ior__, [S(x) for x in op[1]])
+        if r[0] == 0:
+            r = [0, None]
+    elif t == S_ISUB:
+        r = call(s.__isub__, [S(x) for x in op[1]])
+        if r[0] == 0:
+            r = [0, None]
+    else:
+        r = call(s.pop)
+    if r[0] == 0:
+        r = [0, enc_val(r[1])]
+    return s, r
+
+
 def impl_set(arg):
     from pybtex.utils import CaseInsensitiveSet
     init, ops, probes, obs_from = arg
@@ -145,55 +232,69 @@ def impl_set(arg):
         return [0, [[[2], []]]]
     out = [[[0, [0]], observe_set(s, probes) if obs_from <= 0 else []]]
     for op in ops:
-        t = op[0]
-        k = S(op[1]) if len(op) > 1 and t not in (S_IOR, S_ISUB) else None
-        if t == S_ADD:
-            r = call(s.add, k)
-        elif t == S_DISCARD:
-            r = call(s.discard, k)
-        elif t == S_REMOVE:
-            r = call(s.remove, k)
-        elif t == S_IN:
-            r = call(s.__contains__, k)
-        elif t == S_CANON:
-            r = call(s.get_canonical_key, k)
-        elif t == S_LOWER:
-            r = call(s.lower)
-            if r[0] == 0:
-                s = r[1]; r = [0, None]
-        elif t == S_CLEAR:
-            r = call(s.clear)
-        elif t == S_IOR:
-            r = call(s.__ior__, [S(x) for x in op[1]])
-            if r[0] == 0:
-                r = [0, None]
-        elif t == S_ISUB:
-            r = call(s.__isub__, [S(x) for x in op[1]])
-            if r[0] == 0:
-                r = [0, None]
-        else:
-            r = call(s.pop)
-        if r[0] == 0:
-            r = [0, enc_val(r[1])]
+        s, r = apply_sop(s, op)
         out.append([r, observe_set(s, probes) if obs_from <= len(out) else []])
+    return [0, out]
+
+
+def impl_multiset(arg):
+    from pybtex.utils import CaseInsensitiveSet
+    ops, probes, obs_from = arg
+    probes = [S(p) for p in probes]
+    ss = []
+    keep = []
+    out = []
+    for op in ops:
+        t = op[0]
+        idx = [op[1]] if t in (SM_OP, SM_LOWER, SM_COPY) else ([op[1], op[2]] if t in (SM_IORFROM, SM_ISUBFROM) else [])
+        if any(i >= len(ss) for i in idx):
+            return [3]      # like the model: an impossible history
+        if t == SM_OP:
+            keep.append(ss[op[1]])
+            ss[op[1]], r = apply_sop(ss[op[1]], op[2])
+        else:
+            if t == SM_LOWER:
+                r = call(ss[op[1]].lower)
+            elif t == SM_COPY:
+                r = call(CaseInsensitiveSet, ss[op[1]])
+            elif t == SM_IORFROM:
+                r = call(ss[op[1]].__ior__, ss[op[2]])
+            elif t == SM_ISUBFROM:
+                r = call(ss[op[1]].__isub__, ss[op[2]])
+            else:
+                r = call(CaseInsensitiveSet, [S(k) for k in op[1]])
+            if r[0] == 0:
+                if t not in (SM_IORFROM, SM_ISUBFROM):
+                    ss.append(r[1])
+                r = [0, [0]]
+        out.append([r, [observe_set(x, probes) for x in ss] if obs_from <= len(out) else []])
     return [0, out]
 
 
 def model_arg(fn, arg):
     """MutableSet.pop takes `next(iter(self))`, i.e. hash order: the model is told which element came
     out on the implementation (and checks that it is a possible one)."""
-    if fn != 2 or not any(op[0] == S_POP for op in arg[1]):
-        return arg
-    out = impl_set(arg)[1]
-    ops = []
-    for i, op in enumerate(arg[1]):
-        if op[0] == S_POP:
-            r = out[i + 1][0] if i + 1 < len(out) else [2]
-            hint = r[1][1] if r[0] == 0 and r[1][0] == 3 else []
-            ops.append([S_POP, hint])
-        else:
-            ops.append(op)
-    return [arg[0], ops, arg[2], arg[3]]
+    if fn == 2 and any(op[0] == S_POP for op in arg[1]):
+        out = impl_set(arg)[1]
+        ops = []
+        for i, op in enumerate(arg[1]):
+            if op[0] == S_POP:
+                r = out[i + 1][0] if i + 1 < len(out) else [2]
+                ops.append([S_POP, r[1][1] if r[0] == 0 and r[1][0] == 3 else []])
+            else:
+                ops.append(op)
+        return [arg[0], ops, arg[2], arg[3]]
+    if fn == 4 and any(op[0] == SM_OP and op[2][0] == S_POP for op in arg[0]):
+        out = impl_multiset(arg)[1]
+        ops = []
+        for i, op in enumerate(arg[0]):
+            if op[0] == SM_OP and op[2][0] == S_POP:
+                r = out[i][0] if i < len(out) else [2]
+                ops.append([SM_OP, op[1], [S_POP, r[1][1] if r[0] == 0 and r[1][0] == 3 else []]])
+            else:
+                ops.append(op)
+        return [ops, arg[1], arg[2]]
+    return arg
 
 
 OPS_SCHEMA = ('L', 'X')
@@ -201,6 +302,8 @@ FUNCS = {
     1: ('pybtex.utils.CaseInsensitiveDict/OrderedCaseInsensitiveDict/CaseInsensitiveDefaultDict (history)', impl_dict,
         ('T', 'X', 'I', ('L', ('T', 'S', 'I')), OPS_SCHEMA, ('L', 'S'), 'N')),
     2: ('pybtex.utils.CaseInsensitiveSet (history)', impl_set, ('T', ('L', 'S'), OPS_SCHEMA, ('L', 'S'), 'N')),
+    3: ('pybtex.utils mapping classes, several live containers (history)', impl_multi, ('T', ('L', 'X'), ('L', 'S'), 'N')),
+    4: ('pybtex.utils.CaseInsensitiveSet, several live sets (history)', impl_multiset, ('T', ('L', 'X'), ('L', 'S'), 'N')),
 }
 
 # ---------------------------------------------------------------------------------------------
@@ -209,6 +312,8 @@ def canon(fn, out):
     try:
         if fn == 1:
             return [[r, o[:6]] for r, o in out]
+        if fn == 3:
+            return [[r, [o[:6] for o in obs]] for r, obs in out]
     except Exception:
         pass
     return out
@@ -280,10 +385,68 @@ def check_obs_dict(ref, cls, dflt, probes, o, factory_ok=True):
     return None
 
 
+def ref_apply(ref, cls, dflt, op, r, name):
+    """one operation on the reference map `ref` of one container, judged against the implementation's result r;
+    returns a message or None"""
+    t = op[0]
+    k = S(op[1]) if len(op) > 1 and t != O_UPDATE else None
+    row = ref.find(k) if k is not None else None
+    exp = None
+    if t == O_SET:
+        ref.set(k, op[2]); exp = [0, [0]]
+    elif t == O_GET:
+        exp = [0, [1, row[2]]] if row else ([0, [1, dflt]] if cls == DEFAULT else [2])
+    elif t == O_DEL:
+        exp = [0, [0]] if ref.delete(k) else [2]
+    elif t == O_IN:
+        exp = [0, [2, int(row is not None)]]
+    elif t == O_GETD:
+        d = [1, op[2][0]] if op[2] else [0]
+        if row:
+            exp = [0, [1, row[2]]]
+        elif cls == DEFAULT:
+            # "yields its default for absent keys": either default is accepted
+            if r not in ([0, d], [0, [1, dflt]]):
+                return '%s: returned %r, expected %r' % (name, r, d)
+            exp = r
+        else:
+            exp = [0, d]
+    elif t == O_POP:
+        if row:
+            exp = [0, [1, row[2]]]; ref.delete(k)
+        elif op[2]:
+            exp = [0, [1, op[2][0]]]
+        else:
+            exp = [2]
+    elif t == O_POPITEM:
+        # which item is popped is not fixed by the property: any present item
+        if not ref.rows:
+            exp = [2]
+        else:
+            if not (r[0] == 0 and r[1][0] == 4 and [r[1][1], r[1][2]] in ref.items()):
+                return '%s: returned %r which is not an item of %r' % (name, r, ref.items())
+            ref.delete(S(r[1][1])); exp = r
+    elif t == O_SETDEFAULT:
+        if row:
+            exp = [0, [1, row[2]]]
+        else:
+            ref.set(k, op[2]); exp = [0, [1, op[2]]]
+    elif t == O_UPDATE:
+        for a, b in op[1]:
+            ref.set(S(a), b)
+        exp = [0, [0]]
+    elif t == O_CLEAR:
+        ref.rows = []; exp = [0, [0]]
+    elif t == O_LOWER:
+        ref.lower(); exp = [0, [0]]
+    if r != exp:
+        return '%s: result %r, expected %r' % (name, r, exp)
+    return None
+
+
 def oracle_dict(arg, out):
     cls, dflt, init, ops, probes, obs_from = arg
     probes = [S(p) for p in probes]
-    known = []
     if len(out) != len(ops) + 1:
         return 'constructor raised' if len(out) == 1 and out[0][0] == [2] else 'history truncated'
     ref = Ref()
@@ -295,64 +458,64 @@ def oracle_dict(arg, out):
         return 'after the constructor: ' + m
     for i, op in enumerate(ops):
         r, o = out[i + 1]
-        t = op[0]
-        k = S(op[1]) if len(op) > 1 and t != O_UPDATE else None
         name = 'step %d %s' % (i + 1, describe_op(op))
-        row = ref.find(k) if k is not None else None
-        exp = None          # expected result; ('any',) = not constrained
-        if t == O_SET:
-            ref.set(k, op[2]); exp = [0, [0]]
-        elif t == O_GET:
-            exp = [0, [1, row[2]]] if row else ([0, [1, dflt]] if cls == DEFAULT else [2])
-        elif t == O_DEL:
-            exp = [0, [0]] if ref.delete(k) else [2]
-        elif t == O_IN:
-            exp = [0, [2, int(row is not None)]]
-        elif t == O_GETD:
-            d = [1, op[2][0]] if op[2] else [0]
-            if row:
-                exp = [0, [1, row[2]]]
-            elif cls == DEFAULT:
-                # "yields its default for absent keys": either default is accepted
-                if r not in ([0, d], [0, [1, dflt]]):
-                    return '%s: returned %r, expected %r' % (name, r, d)
-                exp = r
-            else:
-                exp = [0, d]
-        elif t == O_POP:
-            if row:
-                exp = [0, [1, row[2]]]; ref.delete(k)
-            elif op[2]:
-                exp = [0, [1, op[2][0]]]
-            else:
-                exp = [2]
-        elif t == O_POPITEM:
-            # which item is popped is not fixed by the property: any present item
-            if not ref.rows:
-                exp = [2]
-            else:
-                if not (r[0] == 0 and r[1][0] == 4 and [r[1][1], r[1][2]] in ref.items()):
-                    return '%s: returned %r which is not an item of %r' % (name, r, ref.items())
-                ref.delete(S(r[1][1])); exp = r
-        elif t == O_SETDEFAULT:
-            if row:
-                exp = [0, [1, row[2]]]
-            else:
-                ref.set(k, op[2]); exp = [0, [1, op[2]]]
-        elif t == O_UPDATE:
-            for a, b in op[1]:
-                ref.set(S(a), b)
-            exp = [0, [0]]
-        elif t == O_CLEAR:
-            ref.rows = []; exp = [0, [0]]
-        elif t == O_LOWER:
-            ref.lower(); exp = [0, [0]]
-        if r != exp:
-            return '%s: result %r, expected %r' % (name, r, exp)
+        m = ref_apply(ref, cls, dflt, op, r, name)
+        if m:
+            return m
         m = check_obs_dict(ref, cls, dflt, probes, o) if o else None
         if m:
             return '%s: %s' % (name, m)
-    return known[0] if known else None
+    return None
+
+
+def oracle_multi(arg, out):
+    """several live containers: one reference map per container; an operation on one must leave all others alone"""
+    ops, probes, obs_from = arg
+    probes = [S(p) for p in probes]
+    if len(out) != len(ops):
+        return 'history truncated'
+    refs = []      # [Ref, cls, dflt]
+    for i, (op, (r, obs)) in enumerate(zip(ops, out)):
+        t = op[0]
+        name = 'step %d %s' % (i + 1, describe_mop(op))
+        idx = [op[1]] if t in (M_OP, M_LOWER, M_COPY, M_COPYITEMS) else ([op[1], op[2]] if t == M_UPDATEFROM else [])
+        if any(j >= len(refs) for j in idx):
+            return '%s: names a container that does not exist' % name
+        if t == M_OP:
+            ref, cls, dflt = refs[op[1]]
+            m = ref_apply(ref, cls, dflt, op[2], r, name)
+            if m:
+                return m
+        else:
+            if t == M_LOWER:
+                src, cls, dflt = refs[op[1]]
+                n = Ref(); n.rows = [[a, a, v] for a, _, v in src.rows]
+                refs.append([n, cls, dflt])
+            elif t in (M_COPY, M_COPYITEMS):
+                src = refs[op[1]][0]
+                n = Ref(); n.rows = [list(x) for x in src.rows]
+                refs.append([n, op[2], 0])
+            elif t == M_UPDATEFROM:
+                dst, src = refs[op[1]][0], refs[op[2]][0]
+                for _, sp, v in [list(x) for x in src.rows]:
+                    dst.set(sp, v)
+            elif t == M_NEW:
+                n = Ref()
+                for k, v in op[2]:
+                    n.set(S(k), v)
+                refs.append([n, op[1], 0])
+            elif t == M_NEWDEFAULT:
+                refs.append([Ref(), DEFAULT, op[1]])
+            if r != [0, [0]]:
+                return '%s: result %r, expected None' % (name, r)
+        if obs:
+            if len(obs) != len(refs):
+                return '%s: %d containers observed, expected %d' % (name, len(obs), len(refs))
+            for j, ((ref, cls, dflt), o) in enumerate(zip(refs, obs)):
+                m = check_obs_dict(ref, cls, dflt, probes, o)
+                if m:
+                    return '%s: container %d: %s' % (name, j, m)
+    return None
 
 
 def check_obs_set(ref, probes, o):
@@ -375,6 +538,46 @@ def check_obs_set(ref, probes, o):
     return None
 
 
+def sref_apply(ref, op, r, name):
+    """one operation on the reference map (dict lower key -> spelling) of one set; returns (new ref, message)"""
+    t = op[0]
+    k = S(op[1]) if len(op) > 1 and t not in (S_IOR, S_ISUB) else None
+    exp = [0, [0]]
+    if t == S_ADD:
+        ref[k.lower()] = k
+    elif t == S_DISCARD:
+        ref.pop(k.lower(), None)
+    elif t == S_REMOVE:
+        if k.lower() in ref:
+            del ref[k.lower()]
+        else:
+            exp = [2]
+    elif t == S_IN:
+        exp = [0, [2, int(k.lower() in ref)]]
+    elif t == S_CANON:
+        exp = [0, [3, norm(ref[k.lower()])]] if k.lower() in ref else [2]
+    elif t == S_LOWER:
+        ref = dict((a, a) for a in ref)
+    elif t == S_CLEAR:
+        ref = {}
+    elif t == S_IOR:
+        for x in op[1]:
+            ref[S(x).lower()] = S(x)
+    elif t == S_ISUB:
+        for x in op[1]:
+            ref.pop(S(x).lower(), None)
+    elif t == S_POP:
+        if not ref:
+            exp = [2]
+        else:
+            if not (r[0] == 0 and r[1][0] == 3 and S(r[1][1]).lower() in ref):
+                return ref, '%s: returned %r which is not an element of %r' % (name, r, sorted(ref))
+            del ref[S(r[1][1]).lower()]; exp = r
+    if r != exp:
+        return ref, '%s: result %r, expected %r' % (name, r, exp)
+    return ref, None
+
+
 def oracle_set(arg, out):
     init, ops, probes, obs_from = arg
     probes = [S(p) for p in probes]
@@ -391,50 +594,72 @@ def oracle_set(arg, out):
         return 'after the constructor: ' + m
     for i, op in enumerate(ops):
         r, o = out[i + 1]
-        t = op[0]
-        k = S(op[1]) if len(op) > 1 and t not in (S_IOR, S_ISUB) else None
         name = 'step %d %s' % (i + 1, describe_sop(op))
-        exp = [0, [0]]
-        if t == S_ADD:
-            ref[k.lower()] = k
-        elif t == S_DISCARD:
-            ref.pop(k.lower(), None)
-        elif t == S_REMOVE:
-            if k.lower() in ref:
-                del ref[k.lower()]
-            else:
-                exp = [2]
-        elif t == S_IN:
-            exp = [0, [2, int(k.lower() in ref)]]
-        elif t == S_CANON:
-            exp = [0, [3, norm(ref[k.lower()])]] if k.lower() in ref else [2]
-        elif t == S_LOWER:
-            ref = dict((a, a) for a in ref)
-        elif t == S_CLEAR:
-            ref = {}
-        elif t == S_IOR:
-            for x in op[1]:
-                ref[S(x).lower()] = S(x)
-        elif t == S_ISUB:
-            for x in op[1]:
-                ref.pop(S(x).lower(), None)
-        elif t == S_POP:
-            if not ref:
-                exp = [2]
-            else:
-                if not (r[0] == 0 and r[1][0] == 3 and S(r[1][1]).lower() in ref):
-                    return '%s: returned %r which is not an element of %r' % (name, r, sorted(ref))
-                del ref[S(r[1][1]).lower()]; exp = r
-        if r != exp:
-            return '%s: result %r, expected %r' % (name, r, exp)
+        ref, m = sref_apply(ref, op, r, name)
+        if m:
+            return m
         m = check_obs_set(ref, probes, o) if o else None
         if m:
             return '%s: %s' % (name, m)
     return None
 
 
+def multiset_well_indexed(ops):
+    n = 0
+    for op in ops:
+        t = op[0]
+        idx = [op[1]] if t in (SM_OP, SM_LOWER, SM_COPY) else ([op[1], op[2]] if t in (SM_IORFROM, SM_ISUBFROM) else [])
+        if any(i >= n for i in idx):
+            return False
+        if t in (SM_LOWER, SM_COPY, SM_NEW):
+            n += 1
+    return True
+
+
+def oracle_multiset(arg, out):
+    ops, probes, obs_from = arg
+    probes = [S(p) for p in probes]
+    if out[0] != 0:
+        return None if out == [3] and not multiset_well_indexed(ops) else 'history failed'
+    out = out[1]
+    if len(out) != len(ops):
+        return 'history truncated'
+    refs = []
+    for i, (op, (r, obs)) in enumerate(zip(ops, out)):
+        t = op[0]
+        name = 'step %d %s' % (i + 1, describe_smop(op))
+        if t == SM_OP:
+            refs[op[1]], m = sref_apply(refs[op[1]], op[2], r, name)
+            if m:
+                return m
+        else:
+            if t in (SM_LOWER, SM_COPY):
+                refs.append(dict((a, a) for a in refs[op[1]]))
+            elif t == SM_IORFROM:
+                for a in list(refs[op[2]]):
+                    refs[op[1]][a] = a
+            elif t == SM_ISUBFROM:
+                for a in list(refs[op[2]]):
+                    refs[op[1]].pop(a, None)
+            elif t == SM_NEW:
+                n = {}
+                for k in op[1]:
+                    n[S(k).lower()] = S(k)
+                refs.append(n)
+            if r != [0, [0]]:
+                return '%s: result %r, expected None' % (name, r)
+        if obs:
+            if len(obs) != len(refs):
+                return '%s: %d sets observed, expected %d' % (name, len(obs), len(refs))
+            for j, (ref, o) in enumerate(zip(refs, obs)):
+                m = check_obs_set(ref, probes, o)
+                if m:
+                    return '%s: set %d: %s' % (name, j, m)
+    return None
+
+
 def oracle(fn, arg, out):
-    return oracle_dict(arg, out) if fn == 1 else oracle_set(arg, out)
+    return {1: oracle_dict, 2: oracle_set, 3: oracle_multi, 4: oracle_multiset}[fn](arg, out)
 
 
 # ---------------------------------------------------------------------------------------------
@@ -457,7 +682,43 @@ def describe_sop(op):
     return '%s(%s)' % (SOPNAMES[t], repr(S(op[1])) if len(op) > 1 and t != S_POP else '')
 
 
+def describe_mop(op):
+    t = op[0]
+    if t == M_OP:
+        return 'c%d.%s' % (op[1], describe_op(op[2]))
+    if t == M_LOWER:
+        return 'new = c%d.lower()' % op[1]
+    if t == M_COPY:
+        return 'new = %s(c%d)' % (CLSNAMES[op[2]], op[1])
+    if t == M_COPYITEMS:
+        return 'new = %s(c%d.items())' % (CLSNAMES[op[2]], op[1])
+    if t == M_UPDATEFROM:
+        return 'c%d.update(c%d)' % (op[1], op[2])
+    if t == M_NEW:
+        return 'new = %s(%r)' % (CLSNAMES[op[1]], [(S(k), v) for k, v in op[2]])
+    return 'new = CaseInsensitiveDefaultDict(lambda: %r)' % op[1]
+
+
+def describe_smop(op):
+    t = op[0]
+    if t == SM_OP:
+        return 's%d.%s' % (op[1], describe_sop(op[2]))
+    if t == SM_LOWER:
+        return 'new = s%d.lower()' % op[1]
+    if t == SM_COPY:
+        return 'new = CaseInsensitiveSet(s%d)' % op[1]
+    if t == SM_IORFROM:
+        return 's%d |= s%d' % (op[1], op[2])
+    if t == SM_ISUBFROM:
+        return 's%d -= s%d' % (op[1], op[2])
+    return 'new = CaseInsensitiveSet(%r)' % [S(k) for k in op[1]]
+
+
 def describe(fn, arg):
+    if fn == 3:
+        return {'ops': [describe_mop(o) for o in arg[0]], 'probes': [S(p) for p in arg[1]]}
+    if fn == 4:
+        return {'ops': [describe_smop(o) for o in arg[0]], 'probes': [S(p) for p in arg[1]]}
     if fn == 1:
         return {'class': CLSNAMES[arg[0]], 'default': arg[1], 'init': [(S(k), v) for k, v in arg[2]],
                 'ops': [describe_op(o) for o in arg[3]], 'probes': [S(p) for p in arg[4]]}
@@ -467,8 +728,11 @@ def describe(fn, arg):
 
 def nontrivial(fn, arg, out):
     """the history really runs and ends in (or passes through) a non-empty container"""
-    steps = out if fn == 1 else (out[1] if out[0] == 0 else [])
-    return len(steps) >= 2 and any(o and o[2 if fn == 1 else 1] > 0 for _, o in steps)
+    if fn in (1, 2):
+        steps = out if fn == 1 else (out[1] if out[0] == 0 else [])
+        return len(steps) >= 2 and any(o and o[2 if fn == 1 else 1] > 0 for _, o in steps)
+    steps = out if fn == 3 else (out[1] if out[0] == 0 else [])
+    return len(steps) >= 2 and any(any(o[2 if fn == 3 else 1] > 0 for o in obs) for _, obs in steps)
 
 
 # ---------------------------------------------------------------------------------------------
@@ -533,39 +797,76 @@ def rich_key(rng, pool):
 def rich_val(rng):
     return rng.choice([0, 1, 2, 3, -1, 7, 10, 42, -305, 2 ** 40, rng.randint(-1000, 1000)])
 
+def random_op(rng, pool):
+    t = rng.choice([O_SET] * 6 + [O_GET, O_DEL, O_DEL, O_DEL, O_IN, O_GETD, O_POP, O_POP, O_POPITEM, O_SETDEFAULT, O_SETDEFAULT, O_UPDATE, O_LOWER] + ([O_CLEAR] if rng.random() < 0.2 else []))
+    k = rich_key(rng, pool)
+    if t in (O_SET, O_SETDEFAULT):
+        return [t, k, rich_val(rng)]
+    if t in (O_GETD, O_POP):
+        return [t, k, [rich_val(rng)] if rng.random() < 0.5 else []]
+    if t == O_UPDATE:
+        return [t, [[rich_key(rng, pool), rich_val(rng)] for _ in range(rng.randint(0, 4))]]
+    if t in (O_POPITEM, O_CLEAR, O_LOWER):
+        return [t]
+    return [t, k]
+
+def random_sop(rng, pool):
+    t = rng.choice([S_ADD] * 6 + [S_DISCARD, S_DISCARD, S_REMOVE, S_REMOVE, S_IN, S_CANON, S_LOWER, S_IOR, S_ISUB, S_POP] + ([S_CLEAR] if rng.random() < 0.2 else []))
+    if t in (S_IOR, S_ISUB):
+        return [t, [rich_key(rng, pool) for _ in range(rng.randint(0, 4))]]
+    if t in (S_LOWER, S_CLEAR, S_POP):
+        return [t]
+    return [t, rich_key(rng, pool)]
+
+def random_multi_history(rng, maxlen):
+    pool = []
+    ops = []
+    n = 0
+    for _ in range(rng.randint(2, maxlen)):
+        if n == 0 or (n < 5 and rng.random() < 0.25):
+            t = rng.choice([M_NEW, M_NEW, M_NEWDEFAULT] + ([M_LOWER, M_LOWER, M_COPY, M_COPYITEMS] if n else []))
+            if t == M_NEW:
+                ops.append([t, rng.choice([PLAIN, ORDERED]), [[rich_key(rng, pool), rich_val(rng)] for _ in range(rng.choice([0, 1, 2, 4]))]])
+            elif t == M_NEWDEFAULT:
+                ops.append([t, rng.choice([0, 5])])
+            elif t == M_LOWER:
+                ops.append([t, rng.randrange(n)])
+            else:
+                ops.append([t, rng.randrange(n), rng.choice([PLAIN, ORDERED])])
+            n += 1
+        elif n >= 2 and rng.random() < 0.12:
+            ops.append([M_UPDATEFROM, rng.randrange(n), rng.randrange(n)])
+        else:
+            ops.append([M_OP, rng.randrange(n), random_op(rng, pool)])
+    return [ops, [rich_key(rng, pool) for _ in range(3)] + ['zz'], 0]
+
+def random_multiset_history(rng, maxlen):
+    pool = []
+    ops = []
+    n = 0
+    for _ in range(rng.randint(2, maxlen)):
+        if n == 0 or (n < 5 and rng.random() < 0.25):
+            t = rng.choice([SM_NEW, SM_NEW] + ([SM_LOWER, SM_LOWER, SM_COPY] if n else []))
+            ops.append([t, [rich_key(rng, pool) for _ in range(rng.choice([0, 1, 3]))]] if t == SM_NEW else [t, rng.randrange(n)])
+            n += 1
+        elif n >= 2 and rng.random() < 0.15:
+            ops.append([rng.choice([SM_IORFROM, SM_IORFROM, SM_ISUBFROM]), rng.randrange(n), rng.randrange(n)])
+        else:
+            ops.append([SM_OP, rng.randrange(n), random_sop(rng, pool)])
+    return [ops, [rich_key(rng, pool) for _ in range(3)] + ['zz'], 0]
+
 def random_dict_history(rng, maxlen):
     cls = rng.choice([PLAIN, ORDERED, ORDERED, DEFAULT])
     pool = []
     init = [] if cls == DEFAULT else [[rich_key(rng, pool), rich_val(rng)] for _ in range(rng.choice([0, 0, 1, 2, 4]))]
-    ops = []
-    for _ in range(rng.randint(1, maxlen)):
-        t = rng.choice([O_SET] * 6 + [O_GET, O_DEL, O_DEL, O_DEL, O_IN, O_GETD, O_POP, O_POP, O_POPITEM, O_SETDEFAULT, O_SETDEFAULT, O_UPDATE, O_LOWER] + ([O_CLEAR] if rng.random() < 0.2 else []))
-        k = rich_key(rng, pool)
-        if t in (O_SET, O_SETDEFAULT):
-            ops.append([t, k, rich_val(rng)])
-        elif t in (O_GETD, O_POP):
-            ops.append([t, k, [rich_val(rng)] if rng.random() < 0.5 else []])
-        elif t == O_UPDATE:
-            ops.append([t, [[rich_key(rng, pool), rich_val(rng)] for _ in range(rng.randint(0, 4))]])
-        elif t in (O_POPITEM, O_CLEAR, O_LOWER):
-            ops.append([t])
-        else:
-            ops.append([t, k])
+    ops = [random_op(rng, pool) for _ in range(rng.randint(1, maxlen))]
     probes = [rich_key(rng, pool) for _ in range(4)] + ['zz']
     return [cls, rng.choice([0, 0, 5]), init, ops, probes, 0]
 
 def random_set_history(rng, maxlen):
     pool = []
     init = [rich_key(rng, pool) for _ in range(rng.choice([0, 0, 1, 3, 5]))]
-    ops = []
-    for _ in range(rng.randint(1, maxlen)):
-        t = rng.choice([S_ADD] * 6 + [S_DISCARD, S_DISCARD, S_REMOVE, S_REMOVE, S_IN, S_CANON, S_LOWER, S_IOR, S_ISUB, S_POP] + ([S_CLEAR] if rng.random() < 0.2 else []))
-        if t in (S_IOR, S_ISUB):
-            ops.append([t, [rich_key(rng, pool) for _ in range(rng.randint(0, 4))]])
-        elif t in (S_LOWER, S_CLEAR, S_POP):
-            ops.append([t])
-        else:
-            ops.append([t, rich_key(rng, pool)])
+    ops = [random_sop(rng, pool) for _ in range(rng.randint(1, maxlen))]
     return [init, ops, [rich_key(rng, pool) for _ in range(4)] + ['zz'], 0]
 
 
@@ -590,6 +891,10 @@ PINNED = [
     ('pinned', 1, [ORDERED, 0, [['a', 1], ['b', 2]], [[O_DEL, 'A'], [O_SET, 'A', 3]], ['a', 'b'], 0]),
     ('pinned', 1, [ORDERED, 0, [['Ab', 1], ['b', 2]], [[O_LOWER], [O_SET, 'AB', 3]], ['ab', 'b'], 0]),
     ('pinned', 1, [PLAIN, 0, [], [[O_UPDATE, [['a', 1], ['B', 2]]], [O_SETDEFAULT, 'A', 5], [O_SETDEFAULT, 'c', 5], [O_UPDATE, [['C', 6], ['b', 7]]]], ['a', 'b', 'c'], 0]),
+    # several live containers: lower() / construction from a container must not share state with the original
+    ('pinned', 3, [[[M_NEW, ORDERED, [['Ab', 1], ['c', 2]]], [M_LOWER, 0], [M_OP, 1, [O_SET, 'AB', 3]], [M_OP, 0, [O_DEL, 'c']], [M_OP, 1, [O_SET, 'd', 4]], [M_OP, 0, [O_CLEAR]]], ['ab', 'c', 'd'], 0]),
+    ('pinned', 3, [[[M_NEW, PLAIN, [['Ab', 1]]], [M_COPY, 0, ORDERED], [M_COPYITEMS, 1, PLAIN], [M_OP, 0, [O_SET, 'ab', 5]], [M_OP, 2, [O_DEL, 'AB']], [M_NEWDEFAULT, 0], [M_UPDATEFROM, 3, 0], [M_OP, 3, [O_LOWER]], [M_OP, 0, [O_POPITEM]]], ['ab', 'x'], 0]),
+    ('pinned', 4, [[[SM_NEW, ['Ab', 'c']], [SM_LOWER, 0], [SM_COPY, 0], [SM_OP, 1, [S_ADD, 'D']], [SM_OP, 0, [S_DISCARD, 'C']], [SM_NEW, ['X']], [SM_IORFROM, 3, 0], [SM_OP, 0, [S_CLEAR]], [SM_ISUBFROM, 1, 3]], ['ab', 'c', 'd', 'x'], 0]),
 ]
 
 
@@ -652,6 +957,37 @@ def gen(tier, rng):
     for n in range(1, (3 if quick else 4) + 1):
         for seq in itertools.product(ssmall, repeat=n):
             yield ('set_exhaustive_histories', 2, [[], list(seq), ['a', 'A', 'b', 'B', 'z'], n - 1])
+    # (g) several live containers: every state x every way of deriving a second container x every mutating
+    #     operation on either of the two; all live containers observed after the fork and after the operation
+    mprobes = ['a', 'A', 'b', 'B', 'c', 'z']
+    mut_ops = [[O_SET, 'a', 5], [O_SET, 'A', 6], [O_SET, 'B', 7], [O_SET, 'c', 8], [O_DEL, 'a'], [O_DEL, 'B'], [O_POP, 'A', []],
+               [O_POP, 'b', [9]], [O_POPITEM], [O_SETDEFAULT, 'c', 3], [O_SETDEFAULT, 'A', 3], [O_UPDATE, [['b', 4], ['C', 4]]],
+               [O_CLEAR], [O_LOWER]]
+    for st in states([('a', 'A'), ('b', 'B')], [1] if quick else [1, 2]):
+        for cls in (PLAIN, ORDERED, DEFAULT):
+            if cls == DEFAULT:
+                base = [[M_NEWDEFAULT, 0]] + [[M_OP, 0, [O_SET, k, v]] for k, v in st]
+            else:
+                base = [[M_NEW, cls, [[k, v] for k, v in st]]]
+            forks = [[[M_LOWER, 0]], [[M_COPY, 0, PLAIN]], [[M_COPY, 0, ORDERED]], [[M_COPYITEMS, 0, ORDERED]],
+                     [[M_NEW, ORDERED, [['c', 0]]], [M_UPDATEFROM, 1, 0]], [[M_NEWDEFAULT, 0], [M_UPDATEFROM, 1, 0]]]
+            for fork in forks:
+                for tgt in (0, 1):
+                    for op in mut_ops:
+                        yield ('multi_exhaustive_fork_x_op', 3, [base + fork + [[M_OP, tgt, op]], mprobes, len(base) + len(fork) - 1])
+    smut = [[S_ADD, 'a'], [S_ADD, 'A'], [S_ADD, 'B'], [S_ADD, 'c'], [S_DISCARD, 'A'], [S_DISCARD, 'b'], [S_REMOVE, 'a'], [S_LOWER],
+            [S_CLEAR], [S_POP], [S_IOR, ['b', 'C']], [S_ISUB, ['a', 'B']]]
+    for st in states([('a', 'A'), ('b', 'B')] if quick else [('a', 'A'), ('b', 'B'), ('c', 'C')], [0]):
+        base = [[SM_NEW, [k for k, _ in st]]]
+        sforks = [[[SM_LOWER, 0]], [[SM_COPY, 0]], [[SM_NEW, ['C']], [SM_IORFROM, 1, 0]], [[SM_NEW, ['a', 'C']], [SM_ISUBFROM, 1, 0]]]
+        for fork in sforks:
+            for tgt in (0, 1):
+                for op in smut:
+                    yield ('multiset_exhaustive_fork_x_op', 4, [base + fork + [[SM_OP, tgt, op]], mprobes, len(base) + len(fork) - 1])
+    for _ in range(400 if quick else 3000):
+        yield ('multi_random_histories', 3, random_multi_history(rng, 25))
+    for _ in range(200 if quick else 1500):
+        yield ('multiset_random_histories', 4, random_multiset_history(rng, 25))
     # (e) random long histories with richer keys
     for _ in range(1500 if quick else 4000):
         yield ('random_histories', 1, random_dict_history(rng, 60))
@@ -687,9 +1023,11 @@ def replay_known(finding):
 
 def search_failing(ck, fn, arg, rng):
     """a model/implementation disagreement on a history: look for a prefix on which the ORACLE fails"""
-    ops_i = 3 if fn == 1 else 1
+    ops_i = {1: 3, 2: 1, 3: 0, 4: 0}[fn]
     for n in range(1, len(arg[ops_i]) + 1):
         a = list(arg); a[ops_i] = arg[ops_i][:n]
+        if fn in (3, 4):
+            a[2] = 0
         m = oracle(fn, a, FUNCS[fn][1](a))
         if m and not ck.match_known('oracle', fn, a, m):
             return (a, m)
@@ -726,7 +1064,7 @@ RULE = ('A case is a HISTORY on one of the four classes: constructor arguments, 
         '`p in c` and c[p] (get_canonical_key(p)) for every probe key are observed and compared with the extracted model, and judged by a '
         'plain-Python reference map (oracle). exhaustive_state_x_op: every reference state over the key/value alphabet (reached by setitem '
         'and, separately, by the constructor) x every operation with every argument; exhaustive_histories: every operation sequence up to '
-        'the depth bound over a 15-operation alphabet; exhaustive_constructor: every list of pairs up to the bound; random: histories of '
+        'the depth bound over a 15-operation alphabet; exhaustive_constructor: every list of pairs up to the bound; multi_*: histories over SEVERAL live containers (fn 3, 4): every reference state x 3 classes x every way of deriving a second container (lower(), cls(c), cls(c.items()), new.update(c)) x every mutating operation on either container, all live containers observed after every step; random: histories of '
         'length <= 60 over mixed-case keys of length 0..5 with digits, symbols and caseless non-ASCII characters. distinct = distinct '
         '(function, argument); non-trivial = the history passes through a non-empty container.')
 EXHAUSTIVE = {
